@@ -235,7 +235,10 @@ fn run_parent(prop: &str, tier: Tier) -> i32 {
     // 2. Generated search in shards.
     let n = nshards(prop, tier);
     let tmp = db::temp_dir("shards");
-    let budget = Duration::from_secs(tier.pick(entry.quick_budget_s, entry.thorough_budget_s));
+    // VERIF_BUDGET_S overrides the tier's wall-clock budget (the shards stop generating at 70% of it)
+    let budget = Duration::from_secs(
+        std::env::var("VERIF_BUDGET_S").ok().and_then(|v| v.parse().ok()).unwrap_or_else(|| tier.pick(entry.quick_budget_s, entry.thorough_budget_s)),
+    );
     let mut children = vec![];
     for i in 0..n {
         let out = tmp.path().join(format!("shard-{}.json", i));
